@@ -35,7 +35,12 @@ def in_known_class(fid, spec, failure):
     if fid == "C02-label-follows-proxy-deleted-neighbour":
         return Lm.label_on_proxy_deleted_neighbour(Lm.Case(spec))
     if fid == "C02-trailing-patch-label-at-block-end":
-        return Lm.trailing_label_then_insert(Lm.Case(spec))
+        case = Lm.Case(spec)
+        if failure.get("kind") == "unexpected-proxy":
+            # the label that slipped behind the later patch now shares the position of a block deleted with
+            # retarget_to_proxy and follows it onto the proxy (the two recorded findings combined)
+            return Lm.trailing_label_then_insert(case) and bool(Lm.Expected(case).proxy_blocks)
+        return Lm.trailing_label_then_insert(case)
     return False
 
 
